@@ -7,6 +7,7 @@ import (
 	"fmt"
 	"io"
 	"os"
+	"sort"
 
 	"github.com/parquet-go/parquet-go"
 
@@ -31,6 +32,7 @@ type Life struct {
 type C17Scenario struct {
 	Subject      string     `json:"subject"` // writer | buffer | sorting
 	BufferKind   string     `json:"buffer_kind,omitempty"`
+	BufferSorted bool       `json:"buffer_sorted,omitempty"` // buffer subject: sorting column configured and sort.Sort before every WriteRowGroup
 	SortRows     int64      `json:"sort_rows,omitempty"`
 	Plan         WritePlan  `json:"plan"`
 	Pools        PoolPolicy `json:"pools"`
@@ -90,6 +92,7 @@ func (C17) Gen(t *tape.Tape, tier string) any {
 	switch sc.Subject {
 	case "buffer":
 		sc.BufferKind = gen.BufferKinds[t.Draw(len(gen.BufferKinds))]
+		sc.BufferSorted = t.Bool()
 	case "sorting":
 		sc.SortRows = int64([]int{100, 1, 7, 50, 1000}[t.Draw(5)])
 		sc.Plan.W.Sorting = []gen.SortCol{{Path: []string{"id"}, Desc: t.Bool()}}
@@ -168,12 +171,18 @@ func (C17) Run(s any, c *core.Ctx) core.Outcome {
 			if fw.FirstErr != nil {
 				return nil, core.Violate("C17/write-error/"+fw.ErrOp, "history=%v: %v", useHistory, fw.FirstErr)
 			}
+			if an := e.PoolAnomalies(); len(an) > 0 {
+				return nil, core.Violate("C17/buffer-pool-misuse/"+sc.Subject, "history=%v: %s", useHistory, an[0])
+			}
 			return sink.Bytes(), nil
 		case "buffer":
 			var ropts []parquet.RowGroupOption
+			if sc.BufferSorted {
+				ropts = append(ropts, parquet.SortingRowGroupConfig(parquet.SortingColumns(parquet.Descending("id"))))
+			}
 			buf := sh.NewBuffer(sc.BufferKind, ropts...)
 			if useHistory {
-				for _, life := range sc.Prior {
+				for li, life := range sc.Prior {
 					ld := sh.Make(life.RowSeed, life.NRows, gen.Profile(life.Profile))
 					pos := 0
 					for _, op := range life.Ops {
@@ -182,6 +191,16 @@ func (C17) Run(s any, c *core.Ctx) core.Outcome {
 								return nil, core.Violate("C17/buffer-write-error", "%v", err)
 							}
 							pos += op.N
+						}
+					}
+					if sc.BufferSorted {
+						sort.Sort(buf)
+						if li%2 == 0 {
+							// materialise the sorted pages before the buffer is reset
+							if _, v := drainRows(buf.Rows()); v != nil {
+								v.Class = "C17/prior-life-error"
+								return nil, v
+							}
 						}
 					}
 					buf.Reset()
@@ -195,6 +214,9 @@ func (C17) Run(s any, c *core.Ctx) core.Outcome {
 					}
 					pos += op.N
 				}
+			}
+			if sc.BufferSorted {
+				sort.Sort(buf)
 			}
 			e := &gen.Env{Ctx: c}
 			sink, face := env.NewSink(c, sc.Plan.Sink, nil)
